@@ -23,15 +23,24 @@ ap = argparse.ArgumentParser()
 ap.add_argument('pid'); ap.add_argument('name')
 ap.add_argument('--demo-cmd', default='')
 ap.add_argument('--needs', default='')
+ap.add_argument('--root', default='/tmp/seed')
+ap.add_argument('--sub', default='')
+ap.add_argument('--demo-dir', default='tests')
 a = ap.parse_args()
-W = f'/tmp/seed/{a.pid}'; O = f'/tmp/seed/{a.pid}-out'
+W = f'{a.root}/{a.pid}'; O = f'{a.root}/{a.pid}-out' + (f'/{a.sub}' if a.sub else '')
 patch = os.path.join(O, 'patch.diff')
 assert os.path.exists(patch), 'no patch.diff'
+if a.sub:
+    # round-2 layout: clean worktree, demo files saved next to the patch
+    rc, out = sh('git checkout -q -- . && git clean -fdq -e target', W)
+    os.makedirs(os.path.join(W, a.demo_dir), exist_ok=True)
+    for f in glob.glob(os.path.join(O, '*.rs')):
+        shutil.copy(f, os.path.join(W, a.demo_dir))
 demos = [p for p in glob.glob(os.path.join(W, 'tests', '*.rs')) + glob.glob(os.path.join(W, 'examples', 'demo*.rs'))]
 demo_cmd = a.demo_cmd or ' && '.join(f"cargo test --offline --features 'interruptible graph_info' --test {os.path.basename(d)[:-3]}" for d in demos if '/tests/' in d)
 print('demo files:', demos, '\ndemo cmd:', demo_cmd)
 # normalise: make sure the change is applied exactly once
-rc, out = sh('git diff --quiet -- src Cargo.toml', W)
+rc, out = sh('git diff --quiet -- src Cargo.toml && test -z "$(git status --porcelain -- src)"', W)
 if rc == 0:
     rc, out = sh(f'git apply {patch}', W); assert rc == 0, out
 rc, out = sh(f'git apply -R {patch}', W); assert rc == 0, 'cannot revert: ' + out
